@@ -22,11 +22,36 @@ Definition stale_cfgs : list (cfg * string * key) :=
                      | Reject f k => [(cfg_of x, nth f fn_names "?", k)]
                      | _ => [] end) all_progs.
 
-(* the one combination the scan rejects on the pinned tree (reported as a finding by the check) *)
-Definition heat_update_cfg : cfg := ("heat", true, false).
-
 Definition scan_ok : bool :=
-  forallb (fun x => cfg_eqb (cfg_of x) heat_update_cfg || accepts (exceptions (cfg_of x)) (prog_of x)) all_progs.
+  forallb (fun x => accepts (exceptions (cfg_of x)) (prog_of x)) all_progs.
+
+(* ---- what a call leaves behind in the cache key ----
+   "_internal_data" may be read from an earlier call only under reuse_internal_data.  That exception is
+   only meaningful if a call WITHOUT the option never leaves data of its own in the key: neither when
+   it returns nor when a stage gives up (the raise sites of the stage drivers themselves). *)
+Definition suffix_of (suf s : string) : bool :=
+  let n := String.length s in let m := String.length suf in
+  Nat.leb m n && String.eqb (substring (n - m) m s) suf.
+
+Definition stage_failure_sites : list string :=
+  ["hydraulics!PipeflowNotConverged"; "bidirectional!PipeflowNotConverged"; "heat_transfer!PipeflowNotConverged"].
+
+Definition stage_failure (f : nat) : bool := mem (nth f fn_names "?") stage_failure_sites.
+
+Definition cache_key : key := "_internal_data".
+
+Definition cache_clean (x : string * bool * bool * prog) : bool :=
+  snd (fst x) (* reuse requested *) ||
+  (let e := eff cache_key stage_failure (prog_of x) in negb (eW (fst e)) && negb (eW (snd e))).
+
+Definition cache_ok : bool :=
+  forallb cache_clean all_progs && forallb (fun s => mem s fn_names) stage_failure_sites.
+
+(* every raise site (any class) at which a call without the reuse option may still hold a cache it wrote *)
+Definition leaky_sites : list (cfg * string) :=
+  flat_map (fun x : string * bool * bool * prog => if snd (fst x) then [] else
+     flat_map (fun i => if eW (snd (eff cache_key (Nat.eqb i) (prog_of x)))
+                        then [(cfg_of x, nth i fn_names "?")] else []) (seq 0 (length fn_names))) all_progs.
 
 (* every configuration is present once *)
 Definition table_complete : bool :=
@@ -85,14 +110,21 @@ Lemma heat_tail_ok_true : heat_tail_ok = true. Proof. vm_compute. reflexivity. Q
 Lemma all_progs_frame : forallb (fun x : string * bool * bool * prog => negb (writes_user (snd x))) all_progs = true.
 Proof. generalize frame_ok_true. unfold frame_ok. intros H. apply andb_true_iff in H. tauto. Qed.
 
-Lemma accepted : forall x, In x all_progs -> cfg_of x <> heat_update_cfg ->
-  accepts (exceptions (cfg_of x)) (prog_of x) = true.
+Lemma cache_ok_true : cache_ok = true. Proof. vm_compute. reflexivity. Qed.
+
+Lemma accepted : forall x, In x all_progs -> accepts (exceptions (cfg_of x)) (prog_of x) = true.
 Proof.
-  intros x Hx Hne. generalize scan_ok_true. unfold scan_ok. rewrite forallb_forall. intros H.
-  specialize (H x Hx). apply orb_true_iff in H. destruct H as [H|H]; auto.
-  exfalso. apply Hne. destruct (cfg_of x) as [[m u] r]. unfold heat_update_cfg in *. simpl in H.
-  repeat (apply andb_true_iff in H; destruct H as [H ?]).
-  apply String.eqb_eq in H. apply Bool.eqb_prop in H1. apply Bool.eqb_prop in H0. subst. reflexivity.
+  intros x Hx. generalize scan_ok_true. unfold scan_ok. rewrite forallb_forall. intros H. auto.
+Qed.
+
+Lemma cache_clean_in : forall x, In x all_progs -> snd (fst x) = false ->
+  eW (fst (eff cache_key stage_failure (prog_of x))) = false /\
+  eW (snd (eff cache_key stage_failure (prog_of x))) = false.
+Proof.
+  intros x Hx Hr. generalize cache_ok_true. unfold cache_ok. intros H.
+  apply andb_true_iff in H. destruct H as [H _]. rewrite forallb_forall in H. specialize (H x Hx).
+  unfold cache_clean in H. rewrite Hr in H. simpl in H.
+  apply andb_true_iff in H. destruct H as [H1 H2]. apply negb_true_iff in H1, H2. auto.
 Qed.
 
 Lemma lookup_in : forall table c, (exists x, In x table /\ cfg_eqb (cfg_of x) c = true) ->
